@@ -12,7 +12,6 @@ Record d3c (c : clause) : Prop := {
   d_oid : cOIdA c = [];
   d_p : match cP c with Some _ => cPID c = [] | None => cPID c = [] \/ cPAncB c <> [] end;
   d_o : match cO c with Some _ => cOID c = [] | None => cOID c = [] \/ cOAncB c <> [] end;
-  d_nd : NoDup (map fst (binders c));
   d_ne : binders c <> []
 }.
 
@@ -23,7 +22,6 @@ Lemma d10_clause_d3c : forall c, d10_clause c = true -> d3c c.
 Proof.
   intros c H. unfold d10_clause in H.
   apply andb_prop in H. destruct H as [H Hne].
-  apply andb_prop in H. destruct H as [H Hnd].
   apply andb_prop in H. destruct H as [H Ho].
   apply andb_prop in H. destruct H as [H Hp].
   apply andb_prop in H. destruct H as [H Hoid].
@@ -41,7 +39,6 @@ Proof.
   - destruct (cO c); [apply is_empty_true; assumption|].
     apply orb_prop in Ho; destruct Ho as [X|X];
       [left; apply is_empty_true; assumption|right; apply is_empty_false; apply negb_true_iff; assumption].
-  - apply nodup_str_NoDup. assumption.
   - destruct (binders c); [discriminate|discriminate].
 Qed.
 
@@ -115,56 +112,58 @@ Proof. reflexivity. Qed.
 Lemma rows_of_with : forall e c s p o ts, rows_of e (with_SPO c s p o) ts = rows_of e c ts.
 Proof. reflexivity. Qed.
 
-(* ---------- rows of a clause with pairwise different binding names *)
-Definition rowopt (c : clause) (t : triple) : option row :=
-  if should_ignore c t then None else brow (c_opt c) (binders c) t.
+(* ---------- the rows of a clause: the planner's (tripleToRow) and the canonical one (the specification's spec_bind) *)
+Definition sbrow (c : clause) (t : triple) : option row := spec_bind (c_opt c) (binders c) t [].
 
-Lemma option_map_app_nil : forall (x : option row), option_map (fun r0 => [] ++ r0) x = x.
-Proof. destruct x; reflexivity. Qed.
+Definition mrow (e : cfg) (c : clause) (t : triple) : option row :=
+  match triple_to_row e c t with Ok o => o | _ => None end.
 
-Lemma row_of_rowopt : forall e c t, fixoid e = true -> d3c c -> row_of e c t = Ok (rowopt c t).
+Definition rowopt (e : cfg) (c : clause) (t : triple) : option row :=
+  if should_ignore c t then None else mrow e c t.
+
+Lemma row_of_rowopt : forall e c t, fixoid e = true -> d3c c -> row_of e c t = Ok (rowopt e c t).
 Proof.
-  intros e c t Hf D. unfold row_of, rowopt. destruct (should_ignore c t); [reflexivity|].
-  unfold triple_to_row.
-  rewrite (ttr_nodup e (c_opt c) (binders c) t [] Hf (no_oid_alias_checked c t (d_oid c D)) (d_nd c D)); [|reflexivity].
-  rewrite option_map_app_nil. reflexivity.
+  intros e c t Hf D. unfold row_of, rowopt, mrow. destruct (should_ignore c t); [reflexivity|].
+  unfold triple_to_row. destruct (ttr_total e (c_opt c) (binders c) t [] Hf (no_oid_alias_checked c t (d_oid c D))) as [o Ho].
+  rewrite Ho. reflexivity.
 Qed.
 
-Lemma spec_row_brow : forall c glo t, d3c c ->
-  spec_row c glo t = if consts_ok c glo t then brow (c_opt c) (binders c) t else None.
+Lemma mrow_sbrow : forall e c t, fixoid e = true -> fixzone e = true -> d3c c -> opt_rel row_equiv (mrow e c t) (sbrow c t).
 Proof.
-  intros c glo t D. unfold spec_row. destruct (consts_ok c glo t); [|reflexivity].
-  rewrite (spec_bind_nodup (c_opt c) (binders c) t [] (d_nd c D)); [|reflexivity].
-  apply option_map_app_nil.
+  intros e c t Hf Hz D. unfold mrow, sbrow, triple_to_row.
+  destruct (ttr_spec_bind e (c_opt c) (binders c) t [] [] Hf Hz (no_oid_alias_checked c t (d_oid c D)) (row_equiv_refl [])) as [o [Ho Hr]].
+  rewrite Ho. exact Hr.
 Qed.
 
-Lemma rowopt_nonempty : forall c t r, d3c c -> rowopt c t = Some r -> r <> [].
+Lemma spec_row_brow : forall c glo t, spec_row c glo t = if consts_ok c glo t then sbrow c t else None.
+Proof. reflexivity. Qed.
+
+Lemma sbrow_nonempty : forall c t r, d3c c -> sbrow c t = Some r -> r <> [].
 Proof.
-  intros c t r D H. unfold rowopt in H. destruct (should_ignore c t); [discriminate|].
-  eapply brow_nonempty; [apply (d_ne c D)|exact H].
+  intros c t r D H. unfold sbrow in H. destruct (spec_bind_facts _ _ _ _ _ H) as [Hb _].
+  pose proof (d_ne c D) as Hne. destruct (binders c) as [|[k x] bs] eqn:E; [congruence|].
+  destruct (Hb k x (or_introl eq_refl)) as [v [w [_ [G _]]]]. intro X. subst. discriminate.
 Qed.
 
-Lemma rows_of_rowopt : forall e c ts, fixoid e = true -> d3c c ->
-  rows_of e c ts = flat_map (fun t => match rowopt c t with Some r => [r] | None => [] end) ts.
+Lemma rowopt_nonempty : forall e c t r, fixoid e = true -> fixzone e = true -> d3c c -> rowopt e c t = Some r -> r <> [].
 Proof.
-  intros e c ts Hf D. unfold rows_of. apply flat_map_ext. intros t.
-  rewrite (row_of_rowopt e c t Hf D). destruct (rowopt c t) as [r|] eqn:E; [|reflexivity].
-  destruct r; [exfalso; apply (rowopt_nonempty c t [] D E); reflexivity|reflexivity].
+  intros e c t r Hf Hz D H. unfold rowopt in H. destruct (should_ignore c t); [discriminate|].
+  pose proof (mrow_sbrow e c t Hf Hz D) as R. rewrite H in R. inversion R as [|a b Hab Ea Eb]; subst.
+  pose proof (sbrow_nonempty c t b D (eq_sym Eb)) as Hb. intro X. subst. inversion Hab. subst. congruence.
 Qed.
 
-(* ---------- brow: the cell of a binder *)
-Lemma brow_get : forall opt bs t r k x, NoDup (map fst bs) -> brow opt bs t = Some r -> In (k, x) bs ->
-  exists v, xval opt x t = Some v /\ get r k = Some v.
+Lemma rows_of_rowopt : forall e c ts, fixoid e = true -> fixzone e = true -> d3c c ->
+  rows_of e c ts = flat_map (fun t => match rowopt e c t with Some r => [r] | None => [] end) ts.
 Proof.
-  intros opt. induction bs as [|[k0 x0] bs IH]; intros t r k x Hnd H Hin; [destruct Hin|].
-  cbn in H. destruct (xval opt x0 t) as [v0|] eqn:X0; [|discriminate].
-  destruct (brow opt bs t) as [r0|] eqn:B; [|discriminate]. inversion H; subst. cbn in Hnd. inversion Hnd; subst.
-  destruct Hin as [E|Hin].
-  - inversion E; subst. exists v0. split; [exact X0|]. cbn. rewrite str_eqb_refl. reflexivity.
-  - destruct (IH t r0 k x H3 B Hin) as [v [A G]]. exists v. split; [exact A|]. cbn.
-    destruct (str_eqb k k0) eqn:Ek; [|exact G]. apply str_eqb_true in Ek. subst. exfalso. apply H2.
-    apply in_map_iff. exists (k0, x). split; auto.
+  intros e c ts Hf Hz D. unfold rows_of. apply flat_map_ext. intros t.
+  rewrite (row_of_rowopt e c t Hf D). destruct (rowopt e c t) as [r|] eqn:E; [|reflexivity].
+  destruct r; [exfalso; apply (rowopt_nonempty e c t [] Hf Hz D E); reflexivity|reflexivity].
 Qed.
+
+(* ---------- the cell of a binder in the canonical row *)
+Lemma brow_get : forall c t r k x, sbrow c t = Some r -> In (k, x) (binders c) ->
+  exists v w, xval (c_opt c) x t = Some v /\ get r k = Some w /\ cell_equiv w v = true.
+Proof. intros c t r k x H Hin. unfold sbrow in H. destruct (spec_bind_facts _ _ _ _ _ H) as [Hb _]. apply Hb. exact Hin. Qed.
 
 (* membership of the binders of each position *)
 Lemma in_binders : forall c k x, k <> [] ->
@@ -177,23 +176,23 @@ Proof.
 Qed.
 
 (* ---------- the specification's constants test = the lookups' matching + shouldIgnoreTriple *)
-Lemma brow_in_some : forall c t r k x, d3c c -> brow (c_opt c) (binders c) t = Some r -> k <> [] ->
+Lemma brow_in_some : forall c t r k x, d3c c -> sbrow c t = Some r -> k <> [] ->
   In (k, x) [(cSB c, XSubj); (cSA c, XSubj); (cSTy c, XSType); (cSId c, XSId);
              (cPB c, XPred); (cPA c, XPred); (cPIdA c, XPId); (cPAncB c, XPAnchor); (cPAncA c, XPAnchor);
              (cOB c, XObj); (cOA c, XObj); (cOTy c, XOType); (cOIdA c, XOId); (cOAncB c, XOAnchor); (cOAncA c, XOAnchor)] ->
-  exists v, xval (c_opt c) x t = Some v /\ get r k = Some v.
+  exists v w, xval (c_opt c) x t = Some v /\ get r k = Some w /\ cell_equiv w v = true.
 Proof.
-  intros c t r k x D B Hk Hin. eapply brow_get; [apply (d_nd c D)|exact B|apply in_binders; assumption].
+  intros c t r k x D B Hk Hin. eapply brow_get; [exact B|apply in_binders; assumption].
 Qed.
 
-Lemma p_anchor_cell : forall c t r, d3c c -> brow (c_opt c) (binders c) t = Some r -> cPAncB c <> [] ->
-  exists v, xval (c_opt c) XPAnchor t = Some v /\ get r (cPAncB c) = Some v.
+Lemma p_anchor_cell : forall c t r, d3c c -> sbrow c t = Some r -> cPAncB c <> [] ->
+  exists v w, xval (c_opt c) XPAnchor t = Some v /\ get r (cPAncB c) = Some w /\ cell_equiv w v = true.
 Proof.
   intros c t r D B Hne. apply (brow_in_some c t r (cPAncB c) XPAnchor D B Hne). cbn. do 7 right. left. reflexivity.
 Qed.
 
-Lemma o_anchor_cell : forall c t r, d3c c -> brow (c_opt c) (binders c) t = Some r -> cOAncB c <> [] ->
-  exists v, xval (c_opt c) XOAnchor t = Some v /\ get r (cOAncB c) = Some v.
+Lemma o_anchor_cell : forall c t r, d3c c -> sbrow c t = Some r -> cOAncB c <> [] ->
+  exists v w, xval (c_opt c) XOAnchor t = Some v /\ get r (cOAncB c) = Some w /\ cell_equiv w v = true.
 Proof.
   intros c t r D B Hne. apply (brow_in_some c t r (cOAncB c) XOAnchor D B Hne). cbn. do 13 right. left. reflexivity.
 Qed.
@@ -202,7 +201,7 @@ Lemma gw_within : forall glo tp,
   gw glo tp = match panchor tp with Some ta => within (lo_lower glo) (lo_upper glo) ta | None => true end.
 Proof. intros. unfold gw, within. destruct (panchor tp); reflexivity. Qed.
 
-Lemma consts_fm : forall e c glo t r, d3c c -> ks e = true -> brow (c_opt c) (binders c) t = Some r ->
+Lemma consts_fm : forall e c glo t r, d3c c -> ks e = true -> sbrow c t = Some r ->
   consts_ok c glo t = fm e c glo t && negb (should_ignore c t).
 Proof.
   intros e c glo t r D Hks B. unfold consts_ok, fm, should_ignore. rewrite <- gw_within.
@@ -215,7 +214,7 @@ Proof.
     - rewrite Dp. cbn. rewrite (pp_key e p (tpred t) Hks). btauto.
     - destruct (is_empty (cPID c)) eqn:Ei; [reflexivity|].
       destruct Dp as [Dp|Dp]; [apply is_empty_true in Dp; congruence|].
-      destruct (p_anchor_cell c t r D B Dp) as [v [Xv _]]. unfold xval in Xv. cbn in Xv.
+      destruct (p_anchor_cell c t r D B Dp) as [v [w0 [Xv _]]]. unfold xval in Xv. cbn in Xv.
       apply is_empty_false in Dp. unfold ignore_pred. rewrite Dp.
       destruct (panchor (tpred t)) as [a|]; cbn; [btauto|].
       destruct (c_opt c); [cbn; btauto|discriminate Xv]. }
@@ -238,7 +237,7 @@ Proof.
     - rewrite Do. cbn. btauto.
     - destruct (is_empty (cOID c)) eqn:Ei; [reflexivity|].
       destruct Do as [Do|Do]; [apply is_empty_true in Do; congruence|].
-      destruct (o_anchor_cell c t r D B Do) as [v [Xv _]]. unfold xval in Xv. cbn in Xv.
+      destruct (o_anchor_cell c t r D B Do) as [v [w0 [Xv _]]]. unfold xval in Xv. cbn in Xv.
       apply is_empty_false in Do. unfold pred_part_ok, ignore_pred. rewrite Ei, Do.
       destruct (tobj t) as [n|p|l]; cbn.
       + destruct (c_opt c); [reflexivity|discriminate Xv].
@@ -258,7 +257,7 @@ Qed.
 Lemma nokey_ne : forall mu k v, get mu [] = None -> get mu k = Some v -> k <> [].
 Proof. intros mu k v H G E. subst. congruence. Qed.
 
-Lemma binder_cell : forall c t r mu k x v, d3c c -> brow (c_opt c) (binders c) t = Some r -> compat_equiv mu r = true ->
+Lemma binder_cell : forall c t r mu k x v, d3c c -> sbrow c t = Some r -> compat_equiv mu r = true ->
   get mu [] = None -> get mu k = Some v ->
   In (k, x) [(cSB c, XSubj); (cSA c, XSubj); (cSTy c, XSType); (cSId c, XSId);
              (cPB c, XPred); (cPA c, XPred); (cPIdA c, XPId); (cPAncB c, XPAnchor); (cPAncA c, XPAnchor);
@@ -266,12 +265,12 @@ Lemma binder_cell : forall c t r mu k x v, d3c c -> brow (c_opt c) (binders c) t
   exists w, xval (c_opt c) x t = Some w /\ cell_equiv v w = true.
 Proof.
   intros c t r mu k x v D B C Hn G Hin.
-  destruct (brow_in_some c t r k x D B (nokey_ne mu k v Hn G) Hin) as [w [X Gr]].
-  exists w. split; [exact X|]. eapply compat_equiv_get; eauto.
+  destruct (brow_in_some c t r k x D B (nokey_ne mu k v Hn G) Hin) as [w [w' [X [Gr Cw]]]].
+  exists w. split; [exact X|]. eapply cell_equiv_trans; [eapply compat_equiv_get; eauto|exact Cw].
 Qed.
 
 Lemma fm_special : forall e c lo t r mu, d3c c -> ks e = true -> get mu [] = None ->
-  brow (c_opt c) (binders c) t = Some r -> compat_equiv mu r = true -> should_ignore c t = false ->
+  sbrow c t = Some r -> compat_equiv mu r = true -> should_ignore c t = false ->
   fm e (specialise e c mu) lo t = fm e c lo t.
 Proof.
   intros e c lo t r mu D Hks Hn B C Si. unfold fm, specialise. cbn [cS cP cO with_SPO].
@@ -294,7 +293,7 @@ Proof.
     destruct (negb (is_empty (cPID c)) && negb (is_empty (cPAncB c))) eqn:En.
     + apply andb_prop in En. destruct En as [En1 En2]. apply negb_true_iff in En1. apply negb_true_iff in En2.
       apply is_empty_false in En2.
-      destruct (p_anchor_cell c t r D B En2) as [va [Xa Gr]].
+      destruct (p_anchor_cell c t r D B En2) as [va [wa [Xa [Gr Cwa]]]].
       assert (HBp : match (match bound_value e mu (cPB c) (cPA c) with Some (CPred p) => Some p | _ => None end) with
                     | Some p => pp e p (tpred t) | None => true end = true).
       { destruct (bound_value e mu (cPB c) (cPA c)) as [[| | |p| |]|] eqn:Eb; try reflexivity.
@@ -303,7 +302,7 @@ Proof.
            [cbn; auto 8|unfold xval in X; cbn in X; inversion X; subst; cbn in E; rewrite (pp_key e p (tpred t) Hks); exact E]). }
       destruct (get mu (cPAncB c)) as [[| | | | |ta]|] eqn:G; try exact HBp.
       (* the anchor binding gave a time *)
-      pose proof (compat_equiv_get mu r (cPAncB c) va (CTime ta) C Gr G) as E.
+      pose proof (cell_equiv_trans _ _ _ (compat_equiv_get mu r (cPAncB c) wa (CTime ta) C Gr G) Cwa) as E.
       unfold xval in Xa. cbn in Xa. destruct (panchor (tpred t)) as [a|] eqn:Ha;
         [inversion Xa; subst va|destruct (c_opt c); inversion Xa; subst va; discriminate E]. cbn in E.
       rewrite (pp_key e _ (tpred t) Hks). unfold pred_key_eqb. cbn [pid panchor]. rewrite Ha, E, andb_true_r.
@@ -326,9 +325,9 @@ Proof.
     destruct (negb (is_empty (cOID c)) && negb (is_empty (cOAncB c))) eqn:En.
     + apply andb_prop in En. destruct En as [En1 En2]. apply negb_true_iff in En1. apply negb_true_iff in En2.
       apply is_empty_false in En2.
-      destruct (o_anchor_cell c t r D B En2) as [va [Xa Gr]].
+      destruct (o_anchor_cell c t r D B En2) as [va [wa [Xa [Gr Cwa]]]].
       destruct (get mu (cOAncB c)) as [[| | | | |ta]|] eqn:G; try exact HB.
-      pose proof (compat_equiv_get mu r (cOAncB c) va (CTime ta) C Gr G) as E.
+      pose proof (cell_equiv_trans _ _ _ (compat_equiv_get mu r (cOAncB c) wa (CTime ta) C Gr G) Cwa) as E.
       unfold xval in Xa. cbn in Xa.
       destruct (tobj t) as [n0|p|l0] eqn:Ht;
         try (destruct (c_opt c); inversion Xa; subst va; discriminate E).
@@ -362,7 +361,7 @@ Proof. intros A R x b H. inversion H; subst. eexists; split; [reflexivity|assump
 (* ---------- one stored triple: the planner's contribution and the specification's *)
 Definition Mt (e : cfg) (c c5 : clause) (lo : lopts) (mu : row) (t : triple) : list row :=
   if fm e c5 lo t
-  then match rowopt c (rebuilt c5 t) with
+  then match rowopt e c (rebuilt c5 t) with
        | Some r => if compat_equiv mu r then [merge_rows mu r] else []
        | None => []
        end
@@ -375,39 +374,40 @@ Definition St (c : clause) (glo : lopts) (mu : row) (t : triple) : list row :=
   end.
 
 Lemma per_triple : forall e c glo mu mu' t,
-  d3c c -> ks e = true -> get mu [] = None -> row_equiv mu mu' ->
+  d3c c -> ks e = true -> fixoid e = true -> fixzone e = true -> get mu [] = None -> row_equiv mu mu' ->
   Forall2 row_equiv (Mt e c (specialise e c mu) glo mu t) (St c glo mu' t).
 Proof.
-  intros e c glo mu mu' t D Hks Hn Hm. unfold Mt, St. rewrite (spec_row_brow c glo t D).
+  intros e c glo mu mu' t D Hks Hf Hz Hn Hm. unfold Mt, St. rewrite (spec_row_brow c glo t).
   set (c5 := specialise e c mu).
-  (* facts available whenever the lookup selects t *)
+  (* facts available whenever the lookup selects t: the planner's row of the rebuilt triple is the canonical row of t *)
   assert (Hsel : fm e c5 glo t = true ->
                  should_ignore c (rebuilt c5 t) = should_ignore c t /\
-                 opt_rel row_equiv (brow (c_opt c) (binders c) (rebuilt c5 t)) (brow (c_opt c) (binders c) t)).
-  { intros Hf. pose proof (rebuilt_equiv e c5 glo t Hks Hf) as Ht. split.
+                 opt_rel row_equiv (mrow e c (rebuilt c5 t)) (sbrow c t)).
+  { intros Hfm. pose proof (rebuilt_equiv e c5 glo t Hks Hfm) as Ht. split.
     - apply should_ignore_equiv. exact Ht.
-    - apply brow_equiv. exact Ht. }
-  destruct (brow (c_opt c) (binders c) t) as [r|] eqn:B.
+    - eapply opt_rel_trans_row; [apply mrow_sbrow; assumption|].
+      unfold sbrow. apply spec_bind_equiv; [exact Ht|apply row_equiv_refl]. }
+  destruct (sbrow c t) as [r|] eqn:B.
   2:{ assert (E : (if consts_ok c glo t then @None row else None) = None) by (destruct (consts_ok c glo t); reflexivity).
-      rewrite E. destruct (fm e c5 glo t) eqn:Hf; [|constructor].
+      rewrite E. destruct (fm e c5 glo t) eqn:Hfm; [|constructor].
       destruct (Hsel eq_refl) as [_ Hb]. unfold rowopt. rewrite (opt_rel_none_r _ _ Hb).
       destruct (should_ignore c (rebuilt c5 t)); constructor. }
   destruct (compat_equiv mu' r) eqn:C.
   2:{ assert (E : match (if consts_ok c glo t then Some r else None) with
                   | Some r0 => if compat_equiv mu' r0 then [merge_rows mu' r0] else []
                   | None => [] end = []) by (destruct (consts_ok c glo t); [rewrite C|]; reflexivity).
-      rewrite E. destruct (fm e c5 glo t) eqn:Hf; [|constructor].
+      rewrite E. destruct (fm e c5 glo t) eqn:Hfm; [|constructor].
       destruct (Hsel eq_refl) as [_ Hb]. unfold rowopt. destruct (should_ignore c (rebuilt c5 t)); [constructor|].
       destruct (opt_rel_some_r _ _ _ Hb) as [r5 [E5 Hr5]]. rewrite E5.
       rewrite (compat_cong mu mu' r5 r Hm Hr5), C. constructor. }
   assert (Cm : compat_equiv mu r = true) by (rewrite (compat_cong mu mu' r r Hm (row_equiv_refl r)); exact C).
   rewrite (consts_fm e c glo t r D Hks B).
   destruct (should_ignore c t) eqn:Si.
-  - rewrite andb_false_r. destruct (fm e c5 glo t) eqn:Hf; [|constructor].
+  - rewrite andb_false_r. destruct (fm e c5 glo t) eqn:Hfm; [|constructor].
     destruct (Hsel eq_refl) as [Hs _]. unfold rowopt. rewrite Hs; rewrite ?Si. constructor.
   - rewrite andb_true_r. unfold c5 at 1. rewrite (fm_special e c glo t r mu D Hks Hn B Cm Si).
-    destruct (fm e c glo t) eqn:Hf; [|constructor].
-    assert (Hf5 : fm e c5 glo t = true) by (unfold c5; rewrite (fm_special e c glo t r mu D Hks Hn B Cm Si); exact Hf).
+    destruct (fm e c glo t) eqn:Hfm; [|constructor].
+    assert (Hf5 : fm e c5 glo t = true) by (unfold c5; rewrite (fm_special e c glo t r mu D Hks Hn B Cm Si); exact Hfm).
     destruct (Hsel Hf5) as [Hs Hb]. unfold rowopt. rewrite Hs; rewrite ?Si.
     destruct (opt_rel_some_r _ _ _ Hb) as [r5 [E5 Hr5]]. rewrite E5.
     rewrite (compat_cong mu mu' r5 r Hm Hr5), C. constructor; [|constructor].
@@ -448,12 +448,12 @@ Qed.
 
 (* ---------- the specialised fetch, filtered by compatibility with the row = the specification's extensions of the row *)
 Lemma fetch_filtered : forall e gs glo c mu mu',
-  d3c c -> ks e = true -> fixoid e = true -> fixsb e = true ->
+  d3c c -> ks e = true -> fixoid e = true -> fixsb e = true -> fixzone e = true ->
   forallb graph_nodup gs = true -> get mu [] = None -> row_equiv mu mu' ->
   exists F, simple_fetch e gs (specialise e c mu) glo = Ok F /\
             Forall2 row_equiv (map (merge_rows mu) (filter (compatible mu) F)) (spec_extend c glo gs mu').
 Proof.
-  intros e gs glo c mu mu' D Hks Hoid Hsb Hnd Hn Hm.
+  intros e gs glo c mu mu' D Hks Hoid Hsb Hz Hnd Hn Hm.
   set (c5 := specialise e c mu).
   assert (Hno5 : cOIdA c5 = []) by (exact (d_oid c D)).
   rewrite (fetch_uniform e gs c5 glo Hoid Hks Hsb Hno5 Hnd).
@@ -462,12 +462,12 @@ Proof.
   rewrite Hlo. rewrite map_filter_flat_map. unfold spec_extend.
   apply Forall2_flat_map. intros g. unfold fetch_rows_u.
   unfold c5 at 1. unfold specialise. rewrite rows_of_with. fold (specialise e c mu). fold c5.
-  rewrite (rows_of_rowopt e c _ Hoid D), flat_map_map_filter.
+  rewrite (rows_of_rowopt e c _ Hoid Hz D), flat_map_map_filter.
   rewrite map_filter_flat_map.
   apply Forall2_flat_map. intros t. rewrite (rbo_true c mu' t D). cbn [andb].
-  pose proof (per_triple e c glo mu mu' t D Hks Hn Hm) as P. unfold Mt, St in P. fold c5 in P.
+  pose proof (per_triple e c glo mu mu' t D Hks Hoid Hz Hn Hm) as P. unfold Mt, St in P. fold c5 in P.
   destruct (fm e c5 glo t); [|exact P].
-  destruct (rowopt c (rebuilt c5 t)) as [r|]; [|exact P].
+  destruct (rowopt e c (rebuilt c5 t)) as [r|]; [|exact P].
   cbn. unfold compatible. unfold compat_equiv in P.
   destruct (forallb (fun kv => match get mu (fst kv) with Some v => cell_equiv v (snd kv) | None => true end) r); exact P.
 Qed.
@@ -495,13 +495,13 @@ Qed.
 (* ---------- composition, step for one row: addSpecifiedData = the specification's contribution of the row (conjunctive
    or left outer join) *)
 Theorem asd_spec : forall e gs glo c mu mu',
-  d3c c -> ks e = true -> strlit_invalid e = false -> fix14 e = true -> fixoid e = true -> fixsb e = true ->
+  d3c c -> ks e = true -> strlit_invalid e = false -> fix14 e = true -> fixoid e = true -> fixsb e = true -> fixzone e = true ->
   forallb graph_nodup gs = true -> get mu [] = None -> row_equiv mu mu' ->
   exists rows, add_specified_data e gs glo c mu = Ok rows /\ Forall2 row_equiv rows (spec_one glo gs c mu').
 Proof.
-  intros e gs glo c mu mu' D Hks Hsl H14 Hoid Hsb Hnd Hn Hm.
+  intros e gs glo c mu mu' D Hks Hsl H14 Hoid Hsb Hz Hnd Hn Hm.
   rewrite (asd_eq e gs glo c mu (d_nb c D) Hsl H14).
-  destruct (fetch_filtered e gs glo c mu mu' D Hks Hoid Hsb Hnd Hn Hm) as [F [EF HF]].
+  destruct (fetch_filtered e gs glo c mu mu' D Hks Hoid Hsb Hz Hnd Hn Hm) as [F [EF HF]].
   rewrite EF. cbn [bind]. eexists. split; [reflexivity|]. unfold spec_one.
   destruct (filter (compatible mu) F) as [|x l] eqn:Ef.
   - cbn in HF. inversion HF as [E|]; subst. destruct (c_opt c); [|constructor].
